@@ -215,7 +215,7 @@ def main(tier):
                 # (class name only) F13 again: with that option on, the end segments of connectors with free endpoints are nudged like interior
                 # ones -- the endpoints of at least two connectors of this scene were moved, and the segments carrying them end up on one line
                 key = 'nudging:option-nudgeOrthogonalSegmentsConnectedToShapes:overlap-between-connectors-whose-endpoints-were-moved'
-            if t == 'overlap-with-end-segment-in-wide-channel':
+            if t.startswith('overlap-with-end-segment-in-wide-channel'):
                 # (class name only) an interior segment lies on another connector's first/last segment although the raw route of its connector
                 # had no segment on that line there: nudging put it there
                 def segs(rt):
